@@ -23,6 +23,11 @@ print("apply rc=%d %s" % (rc, out))
 if rc != 0:
     rc, out = sh("git apply --3way --whitespace=nowarn " + patch, cwd=repo); print("apply --3way rc=%d %s" % (rc, out))
 rep = {"applied": rc == 0}
+# effective patch against this HEAD (after a possible 3-way merge), used for revert/re-apply below
+sh("git add -N . ", cwd=repo)
+eff = "/tmp/vs-%s/eff.diff" % name
+open(eff, "w").write(sh("git diff", cwd=repo)[1])
+patch = eff
 rc, out = sh("go build ./... && go build -tags verif ./...", cwd=repo); print("build rc=%d %s" % (rc, out[-1500:])); rep["build_ok"] = rc == 0
 rc, out = sh("go test -vet=off -count=1 -timeout 25m ./... 2>&1 | grep -E '^(--- FAIL|FAIL|ok|panic)' ", cwd=repo)
 fails = [l for l in out.splitlines() if l.startswith("--- FAIL") and "TestResolveEndpoint" not in l]
